@@ -409,6 +409,11 @@ def gen_model(rng, max_records=40, max_payload=None, tier='quick'):
             segs = gen_segments(rng, total, maxlen, trail, False, 'one')
         if segs is None:
             segs = [{'n': 0, 'pad': 12 - (2 if trail else 0), 'chk': False, 'newvr': False}]
+        if not enc and len(segs) >= 1 and total > 0 and rng.chance(0.04):
+            # a writer that flushes an empty buffer: a segment that is not the last and holds nothing but pad bytes
+            empty = {'n': 0, 'pad': 0, 'chk': rng.chance(0.25), 'newvr': False}
+            fix_seg(empty, trail, False)
+            segs.insert(rng.randrange(0, len(segs)), empty)
         for s in segs:
             if pack == 'one':
                 s['newvr'] = True
